@@ -92,6 +92,7 @@ def asyncExecuteTasking(submission: TaskExecutionSubmission) -> dict:
         sensor_info_list.append(
             {
                 "sensor_id": sensing_agent.simulation_id,
+                "target_id": primary_tgt.simulation_id,
                 "boresight": boresight,
                 "time_last_tasked": time_last_tasked,
             },
